@@ -197,7 +197,52 @@ func runC09(c *core.Ctx) {
 	m := sgen.Gen(r, sgen.Size{Agencies: 3, Routes: 4, Stops: 8, Transfers: 4, Calendars: 3, CalDates: 5, Shapes: 3, ShapePtsPer: 5, Trips: 6, Freqs: 3, StopTimesPer: 6})
 	m.OmitEmptyOptional = false
 	base := sgen.Tables(m)
-	b0 := sgen.Encode(base, &sgen.Presentation{Plain: true})
+	// every third model is written with some OPTIONAL columns absent from their headers (with and without the injected rows
+	// alike): a row rejected for a cell of column X must be just as inert when the neighbouring optional column is not there
+	dropped := map[string][]string{}
+	if c.Index%3 == 0 {
+		for _, t := range base.Tables {
+			req := map[string]bool{}
+			for _, col := range sgen.RequiredColumns[t.Name] {
+				req[col] = true
+			}
+			for _, col := range t.Header {
+				if req[col] || !r.Chance(1, 5) {
+					continue
+				}
+				if t.Name == "stop_times.txt" && (col == "arrival_time" || col == "departure_time") {
+					other := map[string]string{"arrival_time": "departure_time", "departure_time": "arrival_time"}[col]
+					gone := false
+					for _, d := range dropped[t.Name] {
+						gone = gone || d == other
+					}
+					if gone {
+						continue
+					}
+				}
+				dropped[t.Name] = append(dropped[t.Name], col)
+			}
+		}
+		if len(dropped) > 0 {
+			c.Feature("optional-columns-absent")
+		}
+		if d := dropped["stop_times.txt"]; len(d) > 0 {
+			for _, col := range d {
+				if col == "arrival_time" || col == "departure_time" {
+					c.Feature("stop_times-without-" + col)
+				}
+			}
+		}
+	}
+	applyDrops := func(a *sgen.Archive) *sgen.Archive {
+		for file, cols := range dropped {
+			for _, col := range cols {
+				a.Table(file).DropCol(col)
+			}
+		}
+		return a
+	}
+	b0 := sgen.Encode(applyDrops(base.Clone()), &sgen.Presentation{Plain: true})
 	s0, err := gtfs.ParseStatic(b0, gtfs.ParseStaticOptions{})
 	c.Eval(1)
 	if err != nil {
@@ -210,6 +255,22 @@ func runC09(c *core.Ctx) {
 		c.Violationf("C09|warning-on-well-formed-feed", map[string]any{"warnings": fmt.Sprint(s0.Warnings)}, "a well-formed feed produced %d warnings", len(s0.Warnings))
 	}
 	cells := c09Cells(m, base, r)
+	{
+		// a cell that makes its row invalid through a column that is not written is no rejection cause in this model
+		var kept []c09Cell
+		for _, cell := range cells {
+			ok := true
+			for _, col := range dropped[cell.file] {
+				if strings.Contains(cell.cause, ":"+col) {
+					ok = false
+				}
+			}
+			if ok {
+				kept = append(kept, cell)
+			}
+		}
+		cells = kept
+	}
 	skipsBefore := core.LibSkips()
 	sampled := false
 	// long runs of rejected rows (size thresholds) for a few random cells of this model
@@ -222,6 +283,7 @@ func runC09(c *core.Ctx) {
 		}
 		longRun[ci] = append(longRun[ci], fmt.Sprintf("%d-consecutive", n))
 	}
+	baseDropped := applyDrops(base.Clone())
 	for ci, cell := range cells {
 		for _, pos := range append(append([]string{}, c09Positions...), longRun[ci]...) {
 			a := base.Clone()
@@ -273,9 +335,10 @@ func runC09(c *core.Ctx) {
 				t.Rows = append(append(append([][]string{}, t.Rows[:at]...), block...), t.Rows[at:]...)
 				pos = "long-run"
 			}
+			applyDrops(a)
 			// remember which rows of the rendered file are injected (by content; injected rows differ from all base rows)
 			baseRows := map[string]bool{}
-			for _, row := range base.Table(cell.file).Rows {
+			for _, row := range baseDropped.Table(cell.file).Rows {
 				baseRows[strings.Join(row, "\x00")] = true
 			}
 			for _, row := range t.Rows {
@@ -366,6 +429,7 @@ func runC09(c *core.Ctx) {
 			}
 			what = append(what, t.Name+"/"+cell.cause)
 		}
+		applyDrops(a)
 		b := sgen.Encode(a, &sgen.Presentation{Plain: false, R: r.Fork(), NoExtraCols: false})
 		s, err, crashSig, crashMsg, stack := safeParseStaticStack(b, gtfs.ParseStaticOptions{InheritWheelchairBoarding: k%2 == 1})
 		c.Eval(1)
